@@ -118,10 +118,24 @@ def portOfPathIn (root : List PNode) (path : Path) : Option PNode :=
         | some q => some q
         | none => some port
 
+/-- `(*table)["self:"]` for the table the directory `dir` (ending in '/') names: the root table for "/",
+    else `apropos(dir)->ports` (fixes/C13-scan-deps-self-port) -/
+def selfPortIn (root : List PNode) (dir : Path) : Option PNode :=
+  let table : Option (List PNode) :=
+    if dir = ['/'] then some root
+    else match aproposIn 16 root dir with
+      | some par => if par.hasPorts then some par.children else none
+      | none => none
+  match table with
+  | none => none
+  | some t => t.find? fun p => p.name = ['s', 'e', 'l', 'f', ':']
+
 /-- what `scan_deps` reads for the path it passes: parent levels (`…/`) through `Ports::apropos`, the
-    path of a line or of a dependency through `port_of_path` -/
+    path of a line or of a dependency through `port_of_path`, `<dir>self:` = the `self:` port of a table -/
 def scanLookup (root : List PNode) (path : Path) : Option DepMeta :=
   if path.getLast? == some '/' then aproposTree root path
+  else if path.length ≥ 6 ∧ path.drop (path.length - 6) = ['/', 's', 'e', 'l', 'f', ':'] then
+    (selfPortIn root (path.take (path.length - 5))).map (·.deps)
   else (portOfPathIn root path).map (·.deps)
 
 end Rtosc.Save
